@@ -12,7 +12,6 @@ import (
 	"github.com/attestantio/vouch/internal/vstub"
 	"github.com/attestantio/vouch/services/attester"
 	nullmetrics "github.com/attestantio/vouch/services/metrics/null"
-	"github.com/rs/zerolog"
 	e2wtypes "github.com/wealdtech/go-eth2-wallet-types/v2"
 )
 
@@ -152,7 +151,7 @@ func (h *hSpec) Spec(_ context.Context, _ *api.SpecOpts) (*api.Response[map[stri
 // epoch coming from the chain specification.
 func attNew(e *attEnv) *Service {
 	s, err := New(context.Background(),
-		WithLogLevel(zerolog.Disabled),
+		WithLogLevel(vnd.LogLevel()),
 		WithMonitor(&nullmetrics.Service{}),
 		WithProcessConcurrency(2),
 		WithSpecProvider(&hSpec{spec: map[string]any{"SLOTS_PER_EPOCH": e.ct.SPE}}),
